@@ -22,10 +22,15 @@ type destEvent struct {
 }
 
 type traceResult struct {
-	Lines     int
-	Events    []destEvent
-	Begins    map[int]int // case -> line of BEGIN marker
-	Ends      map[int]int
+	Lines  int
+	Events []destEvent
+	Begins map[int]int // case -> line of BEGIN marker
+	Ends   map[int]int
+	// Open[id] .. Shut[id]: trace lines between which the harness listeners of a
+	// case can exist (from the worker's request that fetched the case to the
+	// BEGIN marker of the worker's following case, or the end of the trace)
+	Open      map[int]int
+	Shut      map[int]int
 	BySyscall map[string]int
 	Marks     int // setsockopt(SO_MARK) calls seen
 	Sockets   int
@@ -43,7 +48,8 @@ var (
 	reV4      = regexp.MustCompile(`sa_family=AF_INET, sin_port=htons\((\d+)\), sin_addr=inet_addr\("([^"]+)"\)`)
 	reV6      = regexp.MustCompile(`sa_family=AF_INET6, sin6_port=htons\((\d+)\),[^}]*?inet_pton\(AF_INET6, "([^"]+)"`)
 	reFam     = regexp.MustCompile(`sa_family=AF_([A-Z0-9_]+)`)
-	reMarker  = regexp.MustCompile(`^2, "CASE (\d+) (BEGIN|END)\\n"`)
+	reMarker  = regexp.MustCompile(`^2, "CASE (\d+) (BEGIN|END) W(\d+)\\n"`)
+	reNext    = regexp.MustCompile(`^2, "WORKER (\d+) NEXT\\n"`)
 )
 
 // parseTrace reads an `strace -f -o` log. It keeps a model of the traced
@@ -57,7 +63,9 @@ func parseTrace(path string) (*traceResult, error) {
 		return nil, err
 	}
 	defer f.Close()
-	tr := &traceResult{Begins: map[int]int{}, Ends: map[int]int{}, BySyscall: map[string]int{}}
+	tr := &traceResult{Begins: map[int]int{}, Ends: map[int]int{}, BySyscall: map[string]int{}, Open: map[int]int{}, Shut: map[int]int{}}
+	lastNext := map[string]int{} // worker -> line of its last NEXT marker
+	lastCase := map[string]int{} // worker -> case it ran last
 	type fdInfo struct {
 		mark int
 		typ  string
@@ -117,11 +125,19 @@ func parseTrace(path string) (*traceResult, error) {
 				tr.Marks++
 			}
 		case "write":
+			if s := reNext.FindStringSubmatch(args); s != nil {
+				lastNext[s[1]] = tr.Lines
+			}
 			if s := reMarker.FindStringSubmatch(args); s != nil {
 				id, _ := strconv.Atoi(s[1])
 				if s[2] == "BEGIN" {
 					tr.Begins[id] = tr.Lines
 					active[id] = true
+					tr.Open[id] = lastNext[s[3]]
+					if prev, ok := lastCase[s[3]]; ok {
+						tr.Shut[prev] = tr.Lines
+					}
+					lastCase[s[3]] = id
 				} else {
 					tr.Ends[id] = tr.Lines
 					delete(active, id)
@@ -180,6 +196,11 @@ func parseTrace(path string) (*traceResult, error) {
 				tr.BySyscall[name]++
 				tr.Events = append(tr.Events, destEvent{Line: tr.Lines, Syscall: name, FD: fd, Mark: fi.mark, Sock: fi.typ, Dest: d, Raw: raw, Window: win})
 			}
+		}
+	}
+	for id := range tr.Begins {
+		if _, ok := tr.Shut[id]; !ok {
+			tr.Shut[id] = tr.Lines + 1
 		}
 	}
 	return tr, sc.Err()
